@@ -55,15 +55,31 @@ pred cursorsInv(cs []*restoreLevelCursor, n int, cur int, cl int, txID int, ts i
      (forall j int :: {cs[j]} 0 <= j && j < n ==> cs[j] != nil && fresh(cs[j]) && allocated(cs[j].itr) && cursorInv(cs[j], cur, txID, ts) && it_client[cs[j].itr] == cl && it_level[cs[j].itr] == 8 - j)
   && (forall i int, j int :: {cs[i], cs[j]} 0 <= i && i < j && j < n ==> cs[i] != cs[j] && cs[i].itr != cs[j].itr)
 
+// Completeness (C08): a cursor is "settled" for cur when nothing unread at its level can touch cur+1, and it
+// holds no candidate; a level is "closed" when no eligible file of it that starts at or before cur+1 ends after cur.
+ghost c08_ioErr Bool
+pred settled(c *restoreLevelCursor, cur int) = c.candidate == nil && (c.done || (c.current != nil && c.current.MinTXID > cur + 1))
+pred closedLevel(cl int, lv int, cur int, txID int, ts int) = forall k int :: {replFile(cl, lv, k)} 0 <= k && k < replN(cl, lv) && elig(replFile(cl, lv, k), txID, ts) && fmin(replFile(cl, lv, k)) <= cur + 1 ==> fmax(replFile(cl, lv, k)) <= cur
+pred closedSnap(cl int, cur int, txID int, ts int) = forall k int :: {replFile(cl, 9, k)} 0 <= k && k < replN(cl, 9) && elig(replFile(cl, 9, k), txID, ts) ==> fmax(replFile(cl, 9, k)) <= cur
+pred noneBeyond(cl int, lv int, cur int) = forall k int :: {replFile(cl, lv, k)} 0 <= k && k < replN(cl, lv) ==> fmin(replFile(cl, lv, k)) <= cur + 1
+
 func litestream.CalcRestorePlan(ctx, client, txID, timestamp, logger) (infos, err)
-  requires txID < 9223372036854775807
-  modifies $alloc, it_idx
+  requires txID < 9223372036854775807 && !c08_ioErr
+  modifies $alloc, it_idx, c08_ioErr
   ensures [C08.nonempty] err == nil ==> len(infos) >= 1
   ensures [C08.start] err == nil ==> infos[0].MinTXID == 1
   ensures [C08.chain] err == nil ==> (forall i int :: 1 <= i && i < len(infos) ==> infos[i].MinTXID <= infos[i - 1].MaxTXID + 1 && infos[i].MaxTXID > infos[i - 1].MaxTXID)
   ensures [C08.target] err == nil && txID != 0 ==> infos[len(infos) - 1].MaxTXID == txID
   ensures [C08.time] err == nil && timestamp != 0 ==> (forall i int :: 0 <= i && i < len(infos) ==> infos[i].CreatedAt < timestamp)
   ensures [C08.member] err == nil ==> (forall i int :: 0 <= i && i < len(infos) ==> member(client, infos[i]))
+  at litestream.ReplicaClient.LTXFiles#all set c08_ioErr = (c08_ioErr || $result1 != nil)
+  at ltx.FileIterator.Close#1 set c08_ioErr = (c08_ioErr || $result0 != nil)
+  at litestream.(*restoreLevelCursor).refresh#1 set c08_ioErr = (c08_ioErr || $result0 != nil)
+  at litestream.(*restoreLevelCursor).ensureCurrent#1 set c08_ioErr = (c08_ioErr || $result0 != nil)
+  ensures [C08.complete-snap] err != nil && !c08_ioErr && (txID == 0 || timestamp == 0) ==> closedSnap(client, currentMax, txID, timestamp)
+  ensures [C08.complete-levels] err != nil && !c08_ioErr && (txID == 0 || timestamp == 0) ==> (forall lv int, k int :: {replFile(client, lv, k)} 0 <= lv && lv <= 8 && 0 <= k && k < replN(client, lv) && elig(replFile(client, lv, k), txID, timestamp) && fmin(replFile(client, lv, k)) <= currentMax + 1 ==> fmax(replFile(client, lv, k)) <= currentMax)
+  ensures [C08.complete-short] err != nil && !c08_ioErr && (txID == 0 || timestamp == 0) && !(txID == 0 && timestamp == 0) ==> currentMax == 0 || (txID != 0 && currentMax < txID)
+  ensures [C08.gap] err == nil && txID == 0 && timestamp == 0 ==> (forall lv int, k int :: {replFile(client, lv, k)} 0 <= lv && lv <= 8 && 0 <= k && k < replN(client, lv) ==> fmin(replFile(client, lv, k)) <= currentMax + 1 && fmax(replFile(client, lv, k)) <= currentMax)
   loop 0 invariant wfLevel(client, 9)
   loop 0 invariant snapshotItr != nil && itOK(snapshotItr) && it_client[snapshotItr] == client && it_level[snapshotItr] == 9
   loop 0 invariant snapshot != nil ==> elig(snapshot, txID, timestamp) && (exists k int :: 0 <= k && k < it_idx[snapshotItr] && snapshot == item(snapshotItr, k))
@@ -71,17 +87,28 @@ func litestream.CalcRestorePlan(ctx, client, txID, timestamp, logger) (infos, er
   loop 1 invariant -1 <= level && level <= 8 && len(cursors) == 8 - level && cap(cursors) == 9
   loop 1 invariant fresh(arr(cursors)) && wfLevel(client, 9) && (forall lv int :: level < lv && lv <= 8 ==> wfLevel(client, lv))
   loop 1 invariant cursorsInv(cursors, len(cursors), currentMax, client, txID, timestamp)
+  loop 1 invariant !c08_ioErr && closedSnap(client, currentMax, txID, timestamp)
   loop 2 invariant len(cursors) == 9 && cursorsInv(cursors, 9, currentMax, client, txID, timestamp)
   loop 2 invariant wfLevel(client, 9) && (forall lv int :: 0 <= lv && lv <= 8 ==> wfLevel(client, lv))
   loop 2 invariant fresh(arr(cursors)) && (cap(infos) == 0 || fresh(arr(infos)))
   loop 2 invariant planInv(infos, currentMax, client, txID, timestamp)
+  loop 2 invariant !c08_ioErr && closedSnap(client, currentMax, txID, timestamp)
   loop 3 invariant -1 <= rangeindex && rangeindex < 9
   loop 3 invariant len(cursors) == 9 && cursorsInv(cursors, 9, currentMax, client, txID, timestamp)
   loop 3 invariant fresh(arr(cursors)) && wfLevel(client, 9) && (forall lv int :: 0 <= lv && lv <= 8 ==> wfLevel(client, lv))
   loop 3 invariant next == nil || (next.candidate != nil && (exists m int :: 0 <= m && m <= rangeindex && next == cursors[m]))
+  loop 3 invariant !c08_ioErr && closedSnap(client, currentMax, txID, timestamp)
+  loop 3 invariant next == nil ==> (forall m int :: {cursors[m]} 0 <= m && m <= rangeindex ==> cursors[m].candidate == nil)
+  loop 3 invariant forall lv int, k int :: {replFile(client, lv, k)} 8 - rangeindex <= lv && lv <= 8 && cursors[8 - lv].candidate == nil && 0 <= k && k < replN(client, lv) && elig(replFile(client, lv, k), txID, timestamp) && fmin(replFile(client, lv, k)) <= currentMax + 1 ==> fmax(replFile(client, lv, k)) <= currentMax
+  loop 3 invariant forall m int :: {cursors[m]} 0 <= m && m <= rangeindex ==> cursors[m].done || (cursors[m].current != nil && cursors[m].current.MinTXID > currentMax + 1)
   loop 4 invariant len(cursors) == 9 && cursorsInv(cursors, 9, currentMax, client, txID, timestamp)
   loop 4 invariant fresh(arr(cursors)) && rangeindex#1 < 9 && wfLevel(client, 9) && (forall lv int :: 0 <= lv && lv <= 8 ==> wfLevel(client, lv))
   loop 4 invariant planInv(infos, currentMax, client, txID, timestamp)
+  loop 4 invariant !c08_ioErr && closedSnap(client, currentMax, txID, timestamp) && txID == 0 && timestamp == 0
+  loop 4 invariant forall m int :: {cursors[m]} rangeindex#1 < m && m < 9 ==> cursors[m].candidate == nil && (cursors[m].done || (cursors[m].current != nil && cursors[m].current.MinTXID > currentMax + 1))
+  loop 4 invariant forall m int :: {cursors[m]} 0 <= m && m <= rangeindex#1 ==> cursors[m].candidate == nil && cursors[m].done
+  loop 4 invariant forall lv int, k int :: {replFile(client, lv, k)} 8 - rangeindex#1 <= lv && lv <= 8 && 0 <= k && k < replN(client, lv) ==> fmin(replFile(client, lv, k)) <= currentMax + 1
+  loop 4 invariant forall lv int, k int :: {replFile(client, lv, k)} 0 <= lv && lv <= 8 && 0 <= k && k < replN(client, lv) && fmin(replFile(client, lv, k)) <= currentMax + 1 ==> fmax(replFile(client, lv, k)) <= currentMax
 
 func litestream.(*restoreLevelCursor).ensureCurrent(c) (err)
   requires cursorLink(c)
@@ -605,6 +632,7 @@ func litestream.(*Replica).syncOnce(r, ctx, maxSyncLTXFiles) (result, err)
   ensures [C05.ack] err == nil && !result.limited ==> r.pos.TXID >= c05_dpos
   ensures [C05.synced-flag] result.synced ==> c05_uploaded
   ensures [C05.ack-not-ahead] err == nil && !result.limited ==> r.pos.TXID <= c05_dpos
+  ensures err == nil ==> r.pos.TXID < 9223372036854775807 && r.db == old(r.db)
   loop 0 invariant r.db == old(r.db) && txID == r.pos.TXID + 1 && r.pos.TXID <= c05_dpos && dpos.TXID == c05_dpos && (result.synced ==> c05_uploaded) && !result.limited
 
 // ---------------------------------------------------------------------------
@@ -1045,4 +1073,64 @@ func litestream.(*VFSFile).FileSize(f) (size, err)
   loop 1 invariant size > 0 ==> (exists p int :: {has(f.index, p)} has(f.index, p) && p * pageSize == size) || (exists p int :: {has(f.pending, p)} has(f.pending, p) && p * pageSize == size)
   loop 2 invariant f == old(f) && pageSize == f.pageSize && size >= 0 && (forall p int :: {has(f.index, p)} has(f.index, p) ==> p * pageSize <= size) && (forall p int :: {has(f.pending, p)} has(f.pending, p) ==> p * pageSize <= size) && (forall p int :: {visited(2)[p]} visited(2)[p] ==> p * pageSize <= size)
   loop 2 invariant size > 0 ==> (exists p int :: {has(f.index, p)} has(f.index, p) && p * pageSize == size) || (exists p int :: {has(f.pending, p)} has(f.pending, p) && p * pageSize == size) || (exists p int :: {has(f.dirty, p)} has(f.dirty, p) && p * pageSize == size)
+
+// ---------------------------------------------------------------------------
+// C01 / C05: the acknowledgement path. Replica.sync repeats bounded passes until one is not cut short;
+// a nil return means the replica position equals the local position read in the last pass.
+func litestream.(*Replica).sync(r, ctx, maxSyncLTXFiles) (err)
+  requires r != nil && r.db != nil
+  assumes r.pos.TXID < 9223372036854775807     // A-txid-range
+  modifies $alloc, it_idx, l0_has, file_closed, c05_writeErr, c05_upErr, c05_dpos, c05_uploaded, c05_lockErr, r.pos, all(litestream.DB), pos_verifyErr, all(ltx.Decoder), all(ltx.Header), all(ltx.Trailer), all(litestream.LTXError), all(ltx.PageHeader), all(ltx.PageIndexElem), key("Elem_string"), key("Elem_uint8")
+  at litestream.(*Replica).syncOnce#1 reset c05_uploaded = false
+  at litestream.(*Replica).syncOnce#1 reset pos_verifyErr = nil
+  at litestream.(*Replica).syncOnce#1 assert [C05.pass-args] $recv == r && $arg1 == maxSyncLTXFiles
+  ensures [C05.sync-ack] err == nil ==> r.pos.TXID == c05_dpos
+  loop 0 invariant r == old(r) && r.db == old(r.db) && r.pos.TXID < 9223372036854775807
+
+func litestream.(*Replica).Sync(r, ctx) (err)
+  assumes r != nil && r.db != nil     // A-replica-wired: a Replica is constructed with its DB and never loses it
+  assumes r.pos.TXID < 9223372036854775807     // A-txid-range
+  modifies $alloc, it_idx, l0_has, file_closed, c05_writeErr, c05_upErr, c05_dpos, c05_uploaded, c05_lockErr, r.pos, all(litestream.DB), pos_verifyErr, all(ltx.Decoder), all(ltx.Header), all(ltx.Trailer), all(litestream.LTXError), all(ltx.PageHeader), all(ltx.PageIndexElem), key("Elem_string"), key("Elem_uint8")
+  at litestream.(*Replica).sync#1 assert [C05.unbounded-pass] $recv == r && $arg1 == 0
+  ensures [C05.sync-ack] err == nil ==> r.pos.TXID == c05_dpos
+
+ghost c01_dbErr Int
+ghost c01_replErr Int
+ghost c01_replCalled Bool
+// SyncAndWait acknowledges only after a successful local sync followed by a successful replica sync.
+func litestream.(*DB).SyncAndWait(db, ctx) (err)
+  requires db != nil && !c01_replCalled
+  modifies $heap, $alloc, c01_dbErr, c01_replErr, c01_replCalled, it_idx, l0_has, file_closed, c05_writeErr, c05_upErr, c05_dpos, c05_uploaded, c05_lockErr, file_written, path_synced, path_handle, pub_dst, pub_renamed, enc_pages, enc_last, pm_commitOff, pm_lastCommit, sync_off, sync_sz, sync_hdr, v_off, v_s1, v_s2, v_wsize, v_lpm, v_lpmCalled, v_detected, v_detCalled, v_belief, tx_lockrow, ckx_barrier, ckx_sealed, ckx_copied, ckx_after, ck_n, ck_mode, ck_restarted, pos_verifyErr, c13_evals, c13_exec, c13_lastSynced
+  at litestream.(*DB).Sync#1 set c01_dbErr = $result0
+  at litestream.(*Replica).Sync#1 assert [C01.ack-order] c01_dbErr == nil && $recv == db.Replica
+  at litestream.(*Replica).Sync#1 set c01_replErr = $result0
+  at litestream.(*Replica).Sync#1 set c01_replCalled = true
+  ensures [C01.ack] err == nil ==> c01_replCalled && c01_dbErr == nil && c01_replErr == nil
+
+// ---------------------------------------------------------------------------
+// C02: the snapshot encoder (goroutine body of DB.snapshotReader). The WAL is read only up to the end offset
+// captured with the position; the header names TXIDs 1..position and the page source is the same page map.
+ghost snp_max Int
+ghost snp_commit Int
+ghost snp_pm Int
+func litestream.(*DB).snapshotReader$1()
+  requires db != nil && pos != nil && pm_commitOff == 0 && !pm_lastCommit
+  assumes 32 <= pos.walEndOffset && pos.walEndOffset <= 4611686018427387904     // established by snapshotPosition ([C02.snap-end]); A-cursor for the upper bound
+  assumes 1 <= pos.pageSize && pos.pageSize <= 65536     // A-pagesize
+  modifies $heap, $alloc, file_closed, pm_commitOff, pm_lastCommit, enc_pages, enc_last, enc_writer, snp_max, snp_commit, snp_pm
+  at litestream.(*WALReader).pageMap#1 assert [C02.snap-bound] $arg1 == pos.walEndOffset - 32 && $arg1 > 0
+  at litestream.(*WALReader).pageMap#1 set snp_max = $result1
+  at litestream.(*WALReader).pageMap#1 set snp_commit = $result2
+  at ltx.(*Encoder).EncodeHeader#1 assert [C02.snap-range] $arg0.MinTXID == 1 && $arg0.MaxTXID == pos.pos.TXID && $arg0.PageSize == pos.pageSize
+  at ltx.(*Encoder).EncodeHeader#1 assert [C02.snap-within-bound] maxOffset <= pos.walEndOffset
+  at ltx.(*Encoder).EncodeHeader#1 assert [C02.snap-cursor] (maxOffset > 32 ==> $arg0.WALOffset + $arg0.WALSize == maxOffset && $arg0.WALOffset >= 32 && $arg0.WALSize > 0) && (maxOffset <= 32 ==> $arg0.WALOffset == 32 && $arg0.WALSize == 0) && $arg0.WALSalt1 == rd.salt1 && $arg0.WALSalt2 == rd.salt2
+  at ltx.(*Encoder).EncodeHeader#1 assert [C02.snap-commit] $arg0.Commit == commit && (walCommit > 0 ==> commit == walCommit)
+  at litestream.(*DB).writeLTXFromDB#1 assert [C02.snap-pages] $arg1 == enc && $arg2 == walFile && $arg3 == commit && $arg4 == pageMap
+
+// The position handed to the snapshot encoder: captured under the executor semaphore, WAL end clamped to the header size.
+func litestream.(*DB).snapshotPosition(db, ctx) (p, err)
+  requires db != nil
+  modifies $heap, $alloc, file_closed, pos_verifyErr
+  at litestream.(*DB).Pos#1 reset pos_verifyErr = nil
+  ensures [C02.snap-end] err == nil ==> p.walEndOffset >= 32 && p.pageSize != 0 && p.db == db
 */
